@@ -52,11 +52,15 @@ func nasConstructors(ctx *Ctx, tab *refnas.Table) {
 	}
 	sucis := []*nasType.MobileIdentity5GS{stgutg.EncodeSuci([]byte("001010000000001"), 2), stgutg.EncodeSuci([]byte("310410123456789"), 3), stgutg.EncodeSuci([]byte("00101000001"), 2)}
 	caps := []*nasType.UESecurityCapability{{Iei: 0x2e, Len: 2, Buffer: []byte{0x80, 0x20}}, {Iei: 0x2e, Len: 4, Buffer: []byte{0xf0, 0xf0, 0xf0, 0xf0}}, nil}
-	// Registration Request
+	// Registration Request: every argument, including the rarely used optional ones (requested NSSAI, uplink data status)
 	for si, suci := range sucis {
 		for ci, c := range caps {
 			for _, clen := range []int{-1, 0, 1, 40, 255, 256, 300} {
-				for _, mm := range []bool{false, true} {
+				for variant := 0; variant < 8; variant++ {
+					mm, withNssai, withUds := variant&1 != 0, variant&2 != 0, variant&4 != 0
+					if variant > 1 && !(ci == 0 && (clen == -1 || clen == 40)) {
+						continue
+					}
 					var cont []byte
 					if clen >= 0 {
 						cont = pattern(2, clen)
@@ -65,30 +69,61 @@ func nasConstructors(ctx *Ctx, tab *refnas.Table) {
 					if mm {
 						cap5 = &nasType.Capability5GMM{Iei: 0x10, Len: 1, Octet: [13]uint8{0x07}}
 					}
-					cs := fmt.Sprintf("GetRegistrationRequest suci=%d cap=%d container=%d 5gmm=%v", si, ci, clen, mm)
-					var b []byte
-					if perr := recoverErr(func() {
-						b = nasTestpacket.GetRegistrationRequest(nasMessage.RegistrationType5GSInitialRegistration, *suci, nil, c, cap5, cont, nil)
-					}); perr != nil {
-						r.Violate("constructor/RegistrationRequest/panic", cs, perr.Error(), nil)
-						continue
+					var nssai *nasType.RequestedNSSAI
+					if withNssai {
+						nssai = &nasType.RequestedNSSAI{Iei: 0x2f, Len: 5, Buffer: []byte{4, 1, 1, 2, 3}}
 					}
-					mand, opts, ok := parse("RegistrationRequest", b, cs)
-					if !ok {
-						continue
+					var uds *nasType.UplinkDataStatus
+					if withUds {
+						uds = &nasType.UplinkDataStatus{Iei: 0x40, Len: 2, Buffer: []byte{0x20, 0x00}}
 					}
-					want("RegistrationRequest", "ngKSI-and-registration-type", cs, mand[3], []byte{0x79})
-					want("RegistrationRequest", "mobile-identity", cs, mand[4], suci.Buffer)
-					if c != nil {
-						want("RegistrationRequest", "UE-security-capability", cs, opts["UESecurityCapability"], c.Buffer)
-					} else if _, has := opts["UESecurityCapability"]; has {
-						r.Violate("constructor/RegistrationRequest/unexpected-IE", cs, "UE security capability present", nil)
-					}
-					if mm {
-						want("RegistrationRequest", "5GMM-capability", cs, opts["Capability5GMM"], []byte{0x07})
-					}
-					if cont != nil {
-						want("RegistrationRequest", "NAS-message-container", cs, opts["NASMessageContainer"], cont)
+					for _, rt := range []uint8{nasMessage.RegistrationType5GSInitialRegistration, nasMessage.RegistrationType5GSMobilityRegistrationUpdating, nasMessage.RegistrationType5GSPeriodicRegistrationUpdating} {
+						if rt != nasMessage.RegistrationType5GSInitialRegistration && !(si == 0 && ci == 0 && clen == -1) {
+							continue
+						}
+						cs := fmt.Sprintf("GetRegistrationRequest type=%d suci=%d cap=%d container=%d 5gmm=%v requestedNSSAI=%v uplinkDataStatus=%v", rt, si, ci, clen, mm, withNssai, withUds)
+						var b []byte
+						if perr := recoverErr(func() {
+							b = nasTestpacket.GetRegistrationRequest(rt, *suci, nssai, c, cap5, cont, uds)
+						}); perr != nil {
+							r.Violate("constructor/RegistrationRequest/panic", cs, perr.Error(), nil)
+							continue
+						}
+						mand, opts, ok := parse("RegistrationRequest", b, cs)
+						if !ok {
+							continue
+						}
+						want("RegistrationRequest", "ngKSI-and-registration-type", cs, mand[3], []byte{0x78 | rt})
+						want("RegistrationRequest", "mobile-identity", cs, mand[4], suci.Buffer)
+						present := map[string][]byte{}
+						if c != nil {
+							present["UESecurityCapability"] = c.Buffer
+						}
+						if mm {
+							present["Capability5GMM"] = []byte{0x07}
+						}
+						if cont != nil {
+							present["NASMessageContainer"] = cont
+						}
+						if withNssai {
+							present["RequestedNSSAI"] = nssai.Buffer
+						}
+						if withUds {
+							present["UplinkDataStatus"] = uds.Buffer
+						}
+						for ie, v := range present {
+							got, has := opts[ie]
+							if !has {
+								r.Violate("constructor/RegistrationRequest/IE-missing/"+ie, cs, fmt.Sprintf("%s given to the constructor is not on the wire under its TS 24.501 IEI: %x", ie, b), nil)
+								continue
+							}
+							want("RegistrationRequest", ie, cs, got, v)
+						}
+						for ie := range opts {
+							if _, exp := present[ie]; !exp {
+								r.Violate("constructor/RegistrationRequest/unexpected-IE", cs, ie+" on the wire but not given to the constructor", nil)
+							}
+						}
 					}
 				}
 			}
